@@ -238,9 +238,8 @@ func main() {
 			tr.Emit(hx.M{"op": "new", "tr": r.tr, "t": t0, "nres": hx.Int(s, "nres"), "rules": out, "maxI": maxI})
 		case "reload":
 			// the rule list is replaced while the statistics hold traffic: whole set, or only the rules of one resource
-			if r.clk.NowMs() == r.lastAdmit {
-				hx.Fatal("trace %d: reload in the millisecond of an admitted token", r.tr)
-			}
+			// (a scenario never reloads in a millisecond in which the PROPERTY admits a token; if the real code admitted one
+			// there, the trace has already failed at that request - the reload is executed and recorded all the same)
 			rules, out := r.buildRules(list(s, "rules"), defIv)
 			if per := hx.Int(s, "per"); per > 0 {
 				var sub []*flow.Rule
